@@ -181,6 +181,16 @@ def handle (args : List String) : String :=
       "M " ++ showParse ((tokens text.toList).bind parseTok) ++ " | S " ++ encode q
     | _, _ => "bad-request"
   | ["fuzz", _] => "M total | S total"
+  | ["nestseq", items] =>
+    -- a history of texts parsed on one thread: each outcome is a function of its own text only
+    let one (it : String) : Option String :=
+      match splitOnChar it ':' with
+      | [kind, n] => (n.toNat?.bind (nestNeeds kind)).map fun need =>
+          if need ≤ Kolibrie.Extracted.maxNestingDepth then "ok" else "err"
+      | _ => none
+    match (splitOnChar items ',').mapM one with
+    | some rs => let r := joinWith "," rs; "M " ++ r ++ " | S " ++ r
+    | none => "bad-request"
   | ["nest", kind, n] =>
     match n.toNat?.bind (nestNeeds kind) with
     | some need =>
